@@ -1,4 +1,4 @@
-(* source: pdb2sql/StructureSimilarity.py:1181-1217 sha1 8b4187d7cda94204bcdd7d77253a25907854227a *)
+(* source: pdb2sql/StructureSimilarity.py:1175-1211 sha1 8b4187d7cda94204bcdd7d77253a25907854227a *)
 Definition capri_src (fnat_1 : Q) (lrmsd_2 : Q) (irmsd_3 : Q) (system_4 : string) : res string :=
  (if ((String.eqb system_4 "protein-protein"))
  then (if (((Qltb fnat_1 (3602879701896397 # 36028797018963968))) || (((Qltb (10 # 1) lrmsd_2)) && ((Qltb (4 # 1) irmsd_3))))
